@@ -231,7 +231,7 @@ def check_wiring(ctx, p, sp, where):
         su = R.pot_sigma(ps, sig)
         ref = R.u_ref(dict(ps, sigma=R.snap(su, r)), r, None) / sp['kT']
         ref2 = R.u_ref(dict(ps, sigma=su), r, None) / sp['kT']
-        m = R.contact_mask(r, su)
+        m = R.branch_mask(ps, r, sig)
         got = np.asarray(clo.potential, dtype=float)
         ok = got.shape == ref.shape and (np.allclose(got[m], ref[m], rtol=1e-10, atol=0) or np.allclose(got[m], ref2[m], rtol=1e-10, atol=0))
         if not ok:
